@@ -30,6 +30,17 @@ Proof.
   exact (has_effect_existsb_spec ops fl Hfl).
 Qed.
 
+(* The report is a union: it is compositional under concatenation, independent of the order of the
+   operations, never leaves the six documented flags, and is empty exactly for effect-free programs. *)
+Theorem C15_analyze_app : forall a b, analyze (a ++ b) = Z.lor (analyze a) (analyze b).
+Proof. exact analyze_app. Qed.
+Theorem C15_analyze_order_independent : forall a b, Permutation.Permutation a b -> analyze a = analyze b.
+Proof. exact analyze_perm. Qed.
+Theorem C15_analyze_range : forall ops, 0 <= analyze ops < 64.
+Proof. exact analyze_range. Qed.
+Theorem C15_analyze_zero_iff : forall ops, analyze ops = 0 <-> Forall (fun o => effect_of o = 0) ops.
+Proof. exact analyze_zero_iff. Qed.
+
 (* Non-vacuity: an immediate made of post-read opcode bytes does not count, a real op after it does. *)
 Example C15_example :
   bytes_contains_any (to_bytes [OPush (-9042521604759584126); OPop]) 48 = false /\
